@@ -93,7 +93,7 @@ def case_spellings(rng, word, n):
 
 
 # ------------------------------------------------------------------------------------------------ C12
-C12_THEOREMS = ["C12_agrees_with_oracles_by_number", "C12_five_tables", "C12_tables_nodup", "C12_lookups_inverse", "C12_invert_deterministic",
+C12_THEOREMS = ["C12_agrees_with_oracles_by_number", "C12_tables_cover_complete_sources", "C12_five_tables", "C12_tables_nodup", "C12_lookups_inverse", "C12_invert_deterministic",
                 "C12_agrees_with_oracles", "C12_oracles_overlap", "C12_audit_ids", "C12_alias_case_insensitive",
                 "C12_alias_pairs", "C12_getinfo_shape", "C12_unsupported", "C12_supported_set"]
 
